@@ -368,7 +368,7 @@ def run_hs(params, R, run):
                     R.violation("C13/rs/%s/%s/handshake/%s/glued-frame-lost" % (fw, role, cls),
                                 "a frame in the same read as the 4th handshake octet was not delivered exactly once (%d deliveries)" % d.last_msgs,
                                 {"octets": (octets + tr_).hex()}, d.case(octets + tr_, [4 + len(tr_)]))
-        R.seen("nontrivial", "h%s%s/%d" % (tag, octets.hex(), len(d.sers)) if d is not drv else "h%s%s" % (tag, octets.hex()))
+        R.seen("nontrivial", "h%s%s/%s" % (tag, octets.hex(), "".join(x[0] for x in d.sers)) if d is not drv else "h%s%s" % (tag, octets.hex()))
         R.seen("hs_outcomes", "%s/%s/%s" % (role, cls, outcome))
 
     lo, hi = 256 * part // parts, 256 * (part + 1) // parts
@@ -381,6 +381,19 @@ def run_hs(params, R, run):
     R.count("hs_decided", n)
     R.count("evaluations", n)
     n = 0
+    if thorough:
+        # the whole 2^16 space under every split again for the other client serializers / a proper subset as server configuration
+        extra = [[x] for x in BASE if x != main_cfg[0]] if role == "client" else [random.Random(seed).sample(BASE, 2)]
+        for cfg in extra:
+            d = S.HsDriver(run, role, cfg)
+            for b0 in range(lo, hi):
+                for b1 in range(256):
+                    one(d, bytes([b0, b1, 0, 0]), 0, True, b0 * 256 + b1 + seed)
+            d.flush()
+            R.seen("hs_configs_full_space", "%s/%s" % (role, "+".join(cfg)))
+        R.count("hs_decided", n)
+        R.count("evaluations", n)
+        n = 0
     # other configurations: magic row (all b1) and the supported columns (all b0), every split
     if role == "server":
         cfgs = [list(c) for r in range(1, 5) for c in itertools.combinations(BASE, r)]
